@@ -155,6 +155,32 @@ PROPS = {
                   r"sync/release-only-own"],
         "lemmas": [],
     },
+    "C14": {
+        "fns": fns([F + "__init__", F + "_validate_properties", F + "_verify_hashstore_properties",
+                    F + "_load_properties", F + "_write_properties", F + "_set_default_algorithms",
+                    F + "_create_path"], r"post/(?!frame-self).*|call:.*"),
+        "extra": [r"yaml/.*"],
+        "lemmas": ["C14/accept-iff-equal-configuration"],
+        "lemma_select": [r"lemma/C14/.*"],
+    },
+    "C15": {
+        "fns": fns(PATHS + [F + "_write_refs_file", F + "_update_refs_file", F + "_computehash",
+                            F + "_put_metadata", F + "_write_properties", F + "_find_object",
+                            F + "store_metadata", F + "_move_and_get_checksums",
+                            F + "_store_hashstore_refs_files"],
+                   r"post/(outcome|result|fs)|post/yaml-round-trip|call:.*"),
+        "extra": [r"path/.*", r"yaml/.*", r"refs/line-is-wsfree"],
+        "lemmas": ["C11/store-then-retrieve"],
+        "lemma_select": [r"lemma/C11/store/path-is-published-address"],
+        "special": ["shard"],
+    },
+    "C16": {
+        "fns": fns(SYNC, ANY) + fns([F + "store_object", F + "store_metadata",
+                                     F + "delete_metadata"], r"post/(outcome|fs|locks)")
+        + fns([F + "__init__"], r"post/(outcome|frame-self)"),
+        "extra": [r"sync/.*"],
+        "lemmas": [],
+    },
     "C17": {
         "fns": fns(CHECKERS, ANY) + fns(PUBLIC_OBJ + PUBLIC_META, r"post/(outcome|fs|locks)"),
         "lemmas": ["C17/" + n for n in ("store_object", "tag_object", "delete_object",
